@@ -94,6 +94,47 @@ func judgeC14(hi *Hist) []*Violation {
 		}
 	}
 	kind := map[int]string{1: "context cancel", 2: "Shutdown"}[hi.Sc.InjectKind]
+	// where did the cancellation land? (reach probes for the evidence)
+	{
+		at := hi.InjectAt
+		switch {
+		case len(hi.Writes) == 0 || at < hi.Writes[0].At:
+			note("c14_inject_before_first_frame")
+		default:
+			note("c14_inject_between_frames")
+		}
+		clientsBusy := false
+		for _, op := range hi.Ops {
+			if op.Inv < at && (op.Ret < 0 || op.Ret > at) {
+				if op.Op.K == h.OpAdd {
+					note("c14_inject_during_add")
+				}
+				if op.Client >= 0 {
+					clientsBusy = true
+				}
+			}
+			if op.Client >= 0 && op.Inv > at {
+				clientsBusy = true
+			}
+		}
+		if !clientsBusy {
+			note("c14_inject_after_clients")
+		}
+		for _, bf := range Facts(hi) {
+			if bf.TermAt >= 0 && bf.TermInv < at {
+				// finished by its client; were both finished frames already out?
+				nterm := 0
+				for _, w := range hi.Writes {
+					if w.At > bf.TermInv && w.At < at {
+						nterm++
+					}
+				}
+				if nterm < 2 {
+					note("c14_inject_bar_finishing")
+				}
+			}
+		}
+	}
 	switch res.Outcome {
 	case simrt.Panic:
 		add("panic", "%s at step %d: goroutine created at %s panicked: %s\n%s", kind, hi.Sc.InjectAt, res.PanicG.Site, res.PanicVal, trimStack(res.PanicStack))
